@@ -51,7 +51,10 @@ CLAIMED = {
         'every order in which chunks are accepted and completed by different '
         'simulated workers, map/starmap values, imap order, imap_unordered '
         'multiset, apply values, exception type/args and the attached remote '
-        'traceback are compared with a sequential run. Exploration level.',
+        'traceback are compared with a sequential run; the same on pools that '
+        'recycle their workers (task quota) while parts are parked or slow, and '
+        '(real pools) for calls made while every worker is being replaced. '
+        'Exploration level.',
         'Chunk completion order is owned by the harness; the real pipes and '
         'processes are exercised by the real-pool part when present.',
         'DESIGN.md section 3 C02'),
@@ -84,7 +87,10 @@ CLAIMED = {
         'TimeLimitExceeded(limit), signals only their workers (TERM first, KILL iff '
         'lingering), never times out map/imap jobs, never raises; a result '
         'consumed between two jobs of a running scan, or whose callback is still '
-        'running when a second (real) thread scans, is never timed out. Real '
+        'running when a second (real) thread scans, is never timed out; while '
+        'join() drains a pool without helper threads its shutdown loop still '
+        'enforces the limits (no job completes successfully more than one loop '
+        'round after its limit). Real '
         'pools: the job fails within the bound, its process is gone, later jobs '
         'are served. Exploration.',
         'Signals are recorded on simulated processes; real kill/replace is the '
@@ -120,7 +126,9 @@ CLAIMED = {
         'Simulated workers; real processes/threads being gone after join() is the '
         'real-pool part. D10 (closed recycling pool) and the rest of D6b (results '
         'of an already failed map left unread at shutdown) are open known '
-        'findings; close() racing a worker replacement is generated (closerace).',
+        'findings; close() racing a worker replacement is generated (closerace, at '
+        'process creation and inside start(), close() running in a gated thread '
+        'of its own; real pools: a slow-to-build replacement) - D27, repaired.',
         'DESIGN.md section 3 C07'),
     'C09': (
         'simpool',
@@ -146,8 +154,9 @@ CLAIMED = {
         'every acquire/release/grow/shrink/clear sequence (all sequences up to '
         'length 7 for n<=2 enumerated, longer ones generated); in pool histories '
         'with put-locks the semaphore never exceeds its bound, equals bound minus '
-        'outstanding apply jobs on exit-free histories, and is full again at '
-        'quiescence; real threads releasing concurrently (barrier, 1 us switch '
+        'outstanding apply jobs on exit-free histories, is full again at '
+        'quiescence, and the slot of a job is already free when its own result '
+        'callback runs; real threads releasing concurrently (barrier, 1 us switch '
         'interval) never push it above its bound. Exploration level (small scope '
         'exhaustive).',
         'A limit kill whose job had finished with its result in flight loses a '
@@ -192,8 +201,10 @@ CLAIMED = {
         'Generated scenarios (pool size 1-4, threads on/off, workers idle / inside '
         'task code / inside a task swallowing BaseException, 0-8 queued jobs; '
         'terminate, terminate twice, del+gc, terminate_job, operator SIGTERM proven '
-        'to land inside the task; also while the supervisor replaces workers, '
-        'between two forks or inside a slow one) run on real pools: terminate() returns within '
+        'to land inside the task, a hard time limit; also while the supervisor '
+        'replaces workers, between two forks or inside a slow one, and while the '
+        'task feeder sits inside a lazily produced imap whose input stalls) run '
+        'on real pools: terminate() returns within '
         'the bound, afterwards no worker process and no pool thread is left, '
         'results delivered before stay intact, repeated calls raise nothing; a '
         'signalled worker leaves the pool, runs its exit callback and starts no '
@@ -309,7 +320,9 @@ CLAIMED = {
         'effects; after every create/copy/hand-over/drop step the server holds '
         'exactly the referents with a live proxy, also for referents that several '
         'proxies share through a registered callable; wrong keys are refused with '
-        'no request served. Exploration level.',
+        'no request served; RLock/Condition proxies used by a forked child that '
+        'builds and drops other proxies while holding the lock behave like the '
+        'local threading object. Exploration level.',
         'Atomicity of concurrent operations is observed under OS-chosen '
         'schedules; clients are fork-context only.',
         'DESIGN.md section 3 C20'),
